@@ -1440,6 +1440,17 @@ class C05(Oracle):
         out = self._one(c, c['which'], s, area, lambda: real_obs(c['which'], s, area, c['seed']))
         if out:
             return out
+        # the same state object after a caller did things to it (rejected writes outside the grid, doors set
+        # in place, a cell replaced): observed as the freshly built equal state is
+        try:
+            done = world_with_a_past(s, random.Random(c['seed']))
+            got = enc_state(real_obs(c['which'], s, area, c['seed']))
+            exp = enc_state(real_obs(c['which'], state_from_str(enc_state(s)), area, c['seed']))
+            if got != exp:
+                return [V('observation/shows-wrong-object', f'{c} (a state already observed, then: {"; ".join(done)}): {got} instead of {exp}')]
+            c = dict(c, state=enc_state(s))
+        except (NotImplementedError, ValueError):
+            pass
         # an observation is a value of its own: one that was handed out earlier is not changed by observing
         # another state later (same view, the agent holding something else, standing elsewhere)
         try:
@@ -1555,6 +1566,34 @@ def rot_world(s, k):
     return State(g * k, Agent(rho, (-k) * s.agent.orientation, s.agent.grid_object))
 
 
+def world_with_a_past(s, rr):
+    """things a caller may have done to a world object that was already looked at, all of which leave (or
+    put) it in a well-defined value: writes just outside the grid (rejected with IndexError, nothing
+    changes), door statuses changed in place (as actuate_door does), a cell replaced.  Returns a
+    description of what was done."""
+    from gym_gridverse.grid_object import Door, Floor, Key, Color
+
+    done = []
+    h, w = s.grid.shape.height, s.grid.shape.width
+    for pos_ in (Position(h, rr.randrange(w)), Position(rr.randrange(h), w), Position(h, w), Position(h + 1, rr.randrange(w))):
+        try:
+            s.grid[pos_] = Key(Color.RED)
+            done.append(f'write at {pos_.yx} accepted')
+        except IndexError:
+            done.append(f'write at {pos_.yx} rejected')
+    doors = [p for p in s.grid.area.positions() if type(s.grid[p]) is Door]
+    for p in doors:
+        if rr.random() < 0.7:
+            d = s.grid[p]
+            d.state = rr.choice([x for x in Door.Status if x is not d.state])
+            done.append(f'door at {p.yx} set to {d.state.name} in place')
+    if rr.random() < 0.5:
+        p = Position(rr.randrange(h), rr.randrange(w))
+        s.grid[p] = rr.choice([Floor(), Door(Door.Status.CLOSED, Color.BLUE), Key(Color.GREEN)])
+        done.append(f'cell {p.yx} replaced by {s.grid[p]!r}')
+    return done
+
+
 class C07(Oracle):
     prop = 'C07'
 
@@ -1596,6 +1635,24 @@ class C07(Oracle):
                 r2 = 'ERR ' + type(e).__name__
             if r1 != r2:
                 out.append(V('observation/not-rotation-invariant', f'{c} k={k}: {r1} vs {r2}'))
+        if out or not in_grid(s.grid, s.agent.position):
+            return out
+        # the same world object, already observed above, after a caller did things to it: it is observed like
+        # the freshly built rotated copy of what it is now
+        done = world_with_a_past(s, random.Random(len(c['state']) + a[0] * 7 + a[3]))
+        fresh = state_from_str(enc_state(s))
+        for k in ks:
+            s2 = rot_world(fresh, k)
+            try:
+                r1 = enc_state(real_obs(c['which'], s, area))
+            except Exception as e:
+                r1 = 'ERR ' + type(e).__name__
+            try:
+                r2 = enc_state(real_obs(c['which'], s2, area))
+            except Exception as e:
+                r2 = 'ERR ' + type(e).__name__
+            if r1 != r2:
+                out.append(V('observation/not-rotation-invariant', f'{c} k={k} (a world already observed, then: {"; ".join(done)}): {r1} vs {r2}'))
         return out
 
 
@@ -3202,6 +3259,13 @@ class C19(Oracle):
         # determinism and cache independence: interleave other queries, compare again
         rr = random.Random(c['order'])
         others = [(Position(0, 0), Area((0, rr.randint(0, 4)), (0, rr.randint(0, 4)))) for _ in range(3)]
+        # rejected queries first (origins outside the area, one whole height / width away from the origin
+        # asked about next, and right next to the border): they are refused and leave nothing behind
+        for bad in (Position(pos.y - area.height, pos.x), Position(pos.y, pos.x - area.width), Position(area.ymin - 1, pos.x), Position(pos.y, area.xmax + 1)):
+            try:
+                raytracing.cached_compute_rays_fancy(bad, area)
+            except Exception:
+                pass  # what a query outside the documented domain answers is not the property's business
         first = raytracing.cached_compute_rays_fancy(pos, area)
         for p2, a2 in others:
             raytracing.cached_compute_rays_fancy(p2, a2)
